@@ -57,6 +57,18 @@ func oracleJournal(c *Ctx) error {
 			kind = "reset"
 		}
 	}
+	if sub == "reset" && c.Res.Exit != 0 && c.Step.Note != "invalid" {
+		// reset and reflog must resolve every displayed position: a position reflog lists cannot be refused
+		_, rest, multi := resetModeOf(c.Step.Args)
+		if !multi && len(rest) == 1 {
+			if m := resetArgRe.FindStringSubmatch(rest[0]); m != nil {
+				var n int
+				if _, err := fmt.Sscanf(m[1], "%d", &n); err == nil && n < len(old) {
+					return fmt.Errorf("reflog displays %d entries but reset %s is refused: %s", len(old), rest[0], c.Res)
+				}
+			}
+		}
+	}
 	isRename := sub == "branch" && c.Res.Exit == 0 && len(c.Step.Args) > 1 && (c.Step.Args[1] == "-r" || c.Step.Args[1] == "--rename")
 	switch {
 	case kind != "":
